@@ -836,3 +836,40 @@ package gtab
 //@     invariant len(matchPos) >= 1 && stackinv(ctx) && len(ctx.stack) == old(len(ctx.stack)) && (ref(matchPos) == ref(ctx.scratch) || fresh(matchPos)) && ctx.scratch == old(ctx.scratch) && rule != nil
 //@     invariant forall k int :: 0 <= k && k < len(ctx.stack) ==> !fresh(ctx.stack[k].InputPos)
 //@     decreases b - next
+
+// Chained context, format 3 (coverage based).  The new stack entry records one
+// strictly increasing position per input coverage set, the first one being a.
+//@ func (l *ChainedSeqContext3) apply(ctx *Context, a int, b int) (next int)   props: C06 C07
+//@   requires l != nil && ctx != nil && 0 <= a && a < b && b <= len(ctx.seq) && stackinv(ctx) && keepOK(ctx) && llOK(ctx)
+//@   requires len(l.Input) >= 1
+//@   ensures next >= -1 && next <= len(ctx.seq) && stackinv(ctx) && len(ctx.seq) == old(len(ctx.seq))
+//@   ensures next < 0 ==> len(ctx.stack) == old(len(ctx.stack))
+//@   ensures next >= 0 ==> a < next && next <= b && len(ctx.stack) == old(len(ctx.stack)) + 1
+//@   ensures next >= 0 ==> len(ctx.stack[old(len(ctx.stack))].InputPos) == len(l.Input) && ctx.stack[old(len(ctx.stack))].InputPos[0] == a && ctx.stack[old(len(ctx.stack))].EndPos == next
+//@   ensures next >= 0 ==> forall k int :: 0 <= k && k + 1 < len(l.Input) ==> ctx.stack[old(len(ctx.stack))].InputPos[k] < ctx.stack[old(len(ctx.stack))].InputPos[k+1]
+//@   opt assume_make=1
+//@   modifies ctx.scratch, ctx.stack, ctx.stack[*], ctx.scratch[*], all(nested), allelems(int), allelems(*nested)
+//@   let C = stackinv(ctx) && len(ctx.stack) == old(len(ctx.stack)) && len(ctx.seq) == old(len(ctx.seq)) && ref(seq) == ref(ctx.seq) && off(seq) == off(ctx.seq) && len(seq) == len(ctx.seq) && b <= len(seq) && ctx.scratch == old(ctx.scratch) && keep == ctx.keep
+//@   let L = len(ctx.seq) == old(len(ctx.seq)) && ref(seq) == ref(ctx.seq) && off(seq) == off(ctx.seq) && len(seq) == len(ctx.seq) && b <= len(seq) && keep == ctx.keep
+//@   let NF = forall k int :: 0 <= k && k < len(ctx.stack) ==> !fresh(ctx.stack[k].InputPos)
+//@   let INC = forall k int :: 0 <= k && k + 1 < len(matchPos) ==> matchPos[k] < matchPos[k+1]
+//@   loop 0
+//@     invariant C && 0 <= p && p <= a && glyphsNeeded >= 0 && glyphsNeeded == len(l.Backtrack) - iter
+//@   loop 1
+//@     invariant L && -1 <= p && p < a && glyphsNeeded >= 0
+//@     decreases p + 1
+//@   loop 2
+//@     invariant C && NF && INC && (ref(matchPos) == ref(ctx.scratch) || fresh(matchPos))
+//@     invariant a <= p && p <= b && glyphsNeeded == len(l.Input) - iter && len(matchPos) == iter && (iter == 0 ==> p == a) && (iter >= 1 ==> a < p && matchPos[0] == a)
+//@     invariant forall k int :: 0 <= k && k < len(matchPos) ==> a <= matchPos[k] && matchPos[k] < p
+//@   loop 3
+//@     invariant L && a < p && p <= b && glyphsNeeded >= 0
+//@     invariant forall k int :: 0 <= k && k < len(matchPos) ==> a <= matchPos[k] && matchPos[k] < p
+//@     decreases b - p
+//@   loop 4
+//@     invariant C && NF && INC && (ref(matchPos) == ref(ctx.scratch) || fresh(matchPos))
+//@     invariant a < next && next <= b && next <= p && p <= len(seq) && glyphsNeeded == len(l.Lookahead) - iter && len(matchPos) == len(l.Input) && matchPos[0] == a
+//@     invariant forall k int :: 0 <= k && k < len(matchPos) ==> a <= matchPos[k] && matchPos[k] < next
+//@   loop 5
+//@     invariant L && a < next && next <= b && next < p && p <= len(seq) && glyphsNeeded >= 0
+//@     decreases len(seq) - p
